@@ -9,6 +9,7 @@ package vrt
 import (
 	"encoding/json"
 	"fmt"
+	"math/rand"
 	"os"
 	"runtime"
 	"strings"
@@ -196,3 +197,19 @@ func Ite(c bool, a, b int) int {
 // this harness (totality checks): operands it cannot format symbolically give
 // a placeholder instead of an inconclusive path.
 func LenientFmt(on bool) {}
+
+var jitterLevel int
+
+// SetJitter(n) makes Jitter sleep a random duration of up to n milliseconds (native
+// replays only; n = 0 switches it off). Used by the replay test on its retries so that
+// schedule-dependent counterexamples get a chance to show natively.
+func SetJitter(n int) { jitterLevel = n }
+
+// Jitter is called by harness stubs of the environment (sink Write, source Read); it does
+// nothing under the symbolic executor, where the scheduler explores the orders.
+func Jitter() {
+	if jitterLevel > 0 {
+		time.Sleep(time.Duration(rand.Intn(jitterLevel*1000+1)) * time.Microsecond)
+		runtime.Gosched()
+	}
+}
